@@ -14,9 +14,10 @@ Algs(KL) ==
   \cup {[V |-> 4, R |-> 4, keylen |-> 128, cfm |-> f] : f \in {"V2", "AESV2", "Identity", "IdentityDefault"}}
   \cup {[V |-> 5, R |-> r, keylen |-> 256, cfm |-> f] : r \in {5, 6}, f \in {"AESV3", "Identity"}}
 
-Mk(A, Perms, Ids, Forms, Encs) ==
-  {[V |-> a.V, R |-> a.R, keylen |-> a.keylen, cfm |-> a.cfm, em |-> em, perms |-> p, id |-> i, form |-> f, encplace |-> e] :
-     a \in A, em \in BOOLEAN, p \in Perms, i \in Ids, f \in Forms, e \in Encs}
+MkDv(A, Perms, Ids, Forms, Encs, DVs) ==
+  {[V |-> a.V, R |-> a.R, keylen |-> a.keylen, cfm |-> a.cfm, em |-> em, perms |-> p, id |-> i, form |-> f, encplace |-> e, dv |-> v] :
+     a \in A, em \in BOOLEAN, p \in Perms, i \in Ids, f \in Forms, e \in Encs, v \in DVs}
+Mk(A, Perms, Ids, Forms, Encs) == MkDv(A, Perms, Ids, Forms, Encs, {"plain"})
 Valid(S) == {c \in S : c.V < 4 => c.em}        \* EncryptMetadata exists from V4 on
 
 AllPerms == SUBSET {"print", "modify", "extract"}
@@ -26,7 +27,7 @@ BothIds == {"present", "absent"}
 
 \* ------------------------------------------------------------------------------------- passwords
 AllTried == {"e", "a", "b", "L", "L2", "M", "M2", "n", "n2", "w", "x", "c", "s", "N", "N2", "P", "B31", "B32", "B33"}
-PairsQuick == {<<"a", "b">>, <<"e", "b">>, <<"L", "n">>, <<"n", "M">>, <<"N", "P">>, <<"B32", "B31">>, <<"a", "same">>}
+PairsQuick == {<<"a", "b">>, <<"e", "b">>, <<"n", "M">>, <<"N", "P">>, <<"B32", "B31">>, <<"a", "same">>}
 PairsFull == {<<u, o>> : u \in {"e", "a", "L", "M", "n"}, o \in {"b", "L", "M", "n", "same"}}
              \cup {<<"N", "b">>, <<"a", "N">>, <<"N", "P">>, <<"P", "N">>, <<"P", "same">>,     \* long AND non-ASCII, either role
                    <<"B32", "B31">>, <<"B33", "B32">>, <<"B31", "B33">>}                   \* the 32-byte boundary
@@ -63,6 +64,11 @@ AuthQuick == Valid(Mk(Algs(KeyLensQuick), SomePerms, BothIds, {"table"}, {"direc
 AuthFull  == Valid(Mk(Algs(KeyLensFull), AllPerms, BothIds, {"table"}, {"direct"}))
 \* "authpw" (thorough): every configuration x ID x the full set of password pairs, one permission set
 AuthPw == Valid(Mk(Algs(KeyLensFull), OnePerm, BothIds, {"table"}, {"direct"}))
+\* "dict": every V>=4 configuration x every spelling of the Encrypt dictionary's irrelevant / optional entries
+DictVariants == {"len40", "len64", "nolen", "alt"}
+DictCfg == {c \in Valid(MkDv(Algs({128}), OnePerm, {"present"}, {"table"}, {"direct", "indirect"}, DictVariants)) :
+              c.V >= 4 /\ (c.dv = "alt" => c.cfm \in {"V2", "AESV2", "AESV3"})}
+DictTried == {"a", "b", "w"}
 \* "content": every configuration x ID x physical form x Encrypt placement x every item location, both passwords
 ContentQuick == Valid(Mk(Algs(KeyLensQuick), OnePerm, {"present"}, {"table", "xrefstm"}, {"direct", "indirect"}))
 ContentFull  == Valid(Mk(Algs(KeyLensFull), OnePerm, BothIds, {"table", "xrefstm"}, {"direct", "indirect"}))
